@@ -355,7 +355,9 @@ func TestC06(t *testing.T) {
 	if replay(t, r, reps, maxRep, tags) {
 		return
 	}
-	conformance(r, confDepth(r))
+	if r.Thorough() {
+		conformance(r, confDepth(r)) // quick: the single-node conformance traces run in C05's check
+	}
 	realClusters(r, clusterDepth(r))
 	fx.BFS(r, reps, maxRep, b, depth, tags, runtime.NumCPU())
 	r.Finish()
